@@ -1,9 +1,9 @@
 CONSTANTS
-  MaxDev = 1
-  MinBrace = FALSE
+  MaxDev = 0
+  MinBrace = TRUE
   Mutate = FALSE
   Globals = "canon"
 INIT Init
 NEXT Next
-INVARIANTS TreeComplete TokensBalanced Emit EmitTree
+INVARIANTS Emit
 CHECK_DEADLOCK FALSE
